@@ -270,7 +270,7 @@ func (KullbackLeibler) DistUniform(l, r *Uniform) float64 {
 //
 // that is, the negative log probability under r(x) that l(x) > 0.
 // When α = 1, the Rényi divergence is equal to the Kullback-Leibler divergence.
-// The Rényi divergence is also equal to half the Bhattacharyya distance when α = 0.5.
+// The Rényi divergence is also equal to twice the Bhattacharyya distance when α = 0.5.
 //
 // The parameter α must be in 0 ≤ α < ∞ or the distance functions will panic.
 type Renyi struct {
